@@ -1143,6 +1143,49 @@ theorem implied_eval (actual : Nat → Option Val) (sh : Nat → Nat) (a s : Nat
 example : (IExpr.bin 2 (.const 1) (.neg (.const 1))).render (fun _ => 0) = [.num 1, .op 2, .lp, .op 2, .num 1, .rp] := by
   decide
 
+/-! ### every variant is reachable under the generic name, under its own condition only -/
+
+theorem ifaceBlockGuard_all (cs : List Nat) (h : ifaceBlockGuard cs ≠ 0) : ∀ c ∈ cs, c = ifaceBlockGuard cs := by
+  cases cs with
+  | nil => simp [ifaceBlockGuard] at h
+  | cons c r =>
+    by_cases hc : c ≠ 0 ∧ (c :: r).all (fun x => x == c)
+    · have hb : ifaceBlockGuard (c :: r) = c := by
+        unfold ifaceBlockGuard; rw [if_pos hc]
+      intro x hx
+      rw [hb]
+      have := List.all_eq_true.mp hc.2 x hx
+      simpa using this
+    · simp only [ifaceBlockGuard, hc, if_false] at h
+      exact absurd rfl h
+
+/-- **generic interfaces and preprocessor guards** (for every list of members): member `i` of the
+    emitted `interface <generic>` block is guarded by exactly its own `cpp_if` - nothing when it has
+    none - whether or not the guard was promoted to the block.  In particular an unconditional
+    overload is never placed under another overload's condition. -/
+theorem generic_member_own_condition (cs : List Nat) (i : Nat) (c : Nat) (hi : cs[i]? = some c) :
+    memberConditions (emitInterfaceGuards cs) i = if c ≠ 0 then [c] else [] := by
+  by_cases hb : ifaceBlockGuard cs = 0
+  · simp [memberConditions, emitInterfaceGuards, hb, hi]
+  · have hall := ifaceBlockGuard_all cs hb
+    have hmem : c ∈ cs := List.mem_of_getElem? hi
+    have hc : c = ifaceBlockGuard cs := hall c hmem
+    have hc0 : c ≠ 0 := by rw [hc]; exact hb
+    have hm : (cs.map (fun _ => (0 : Nat)))[i]? = some 0 := by simp [hi]
+    simp [memberConditions, emitInterfaceGuards, hb, hm, hc0, ← hc]
+
+example : emitInterfaceGuards [7, 0, 0] = (0, [7, 0, 0]) ∧ emitInterfaceGuards [7, 7] = (7, [0, 0]) := by decide
+
+/-- **assumed-rank variants**: the generic gets one specific for every rank from
+    `F_assumed_rank_min` to `F_assumed_rank_max` inclusive, and no other -/
+theorem assumed_rank_variants (lo hi r : Nat) : r ∈ assumedRanks lo hi ↔ lo ≤ r ∧ r ≤ hi := by
+  simp only [assumedRanks, List.mem_map, List.mem_range]
+  constructor
+  · rintro ⟨k, hk, rfl⟩; omega
+  · intro h; exact ⟨r - lo, by omega, by omega⟩
+
+example : assumedRanks 0 2 = [0, 1, 2] := by decide
+
 /-! ## non-vacuity: concrete instances of the hypotheses used above -/
 
 example : runArg Kind.charOut.fspec (Kind.charOut.cspec false) true (.buf [113, 113, 113, 113])
